@@ -633,6 +633,31 @@ func (s *syncer) inferBisyncNamespaceMode(cli client.Redis, checkpointName strin
 // loadBisyncMigrationSeed extracts one authoritative recovery point from an
 // existing namespace so the checkpoint hash can be repointed to a new mode.
 func (s *syncer) loadBisyncMigrationSeed(cli client.Redis, checkpointName string, ids []string, currentMode checkpoint.BisyncMode, recoverySlots []uint16) (*checkpoint.BisyncNamespaceSeed, error) {
+	seed, err := s.loadBisyncModeSeed(cli, checkpointName, ids, currentMode, recoverySlots)
+	if err != nil {
+		return nil, err
+	}
+	if seed == nil {
+		return nil, fmt.Errorf("no bisync authoritative migration seed found: checkpoint(%s), mode(%s), ids(%v)", checkpointName, currentMode, ids)
+	}
+
+	// A full resync records its position at the root checkpoint of the namespace only. When
+	// that is ahead of the mode specific state it is the position a start resumes from (see
+	// bisyncStartPoint), so it is the position the new namespace has to carry.
+	root, _, err := checkpoint.GetCheckpoint(cli, checkpointName, ids)
+	if err != nil {
+		return nil, err
+	}
+	if root != nil && root.Offset > seed.Offset && checkpoint.MatchBisyncRunID(root.RunId, ids) {
+		seed.RunID = root.RunId
+		seed.Offset = root.Offset
+	}
+	return seed, nil
+}
+
+// loadBisyncModeSeed reads the recovery point kept in the mode specific records of a namespace
+// (latest records, or frontier and journal) ; nil when there is none.
+func (s *syncer) loadBisyncModeSeed(cli client.Redis, checkpointName string, ids []string, currentMode checkpoint.BisyncMode, recoverySlots []uint16) (*checkpoint.BisyncNamespaceSeed, error) {
 	var seed *checkpoint.BisyncNamespaceSeed
 	switch currentMode {
 	case checkpoint.BisyncModeSync:
@@ -676,22 +701,41 @@ func (s *syncer) loadBisyncMigrationSeed(cli client.Redis, checkpointName string
 	default:
 		return nil, fmt.Errorf("unsupported bisync mode %q", currentMode)
 	}
-	if seed == nil {
-		return nil, fmt.Errorf("no bisync authoritative migration seed found: checkpoint(%s), mode(%s), ids(%v)", checkpointName, currentMode, ids)
-	}
-
-	// A full resync records its position at the root checkpoint of the namespace only. When
-	// that is ahead of the mode specific state it is the position a start resumes from (see
-	// bisyncStartPoint), so it is the position the new namespace has to carry.
-	root, _, err := checkpoint.GetCheckpoint(cli, checkpointName, ids)
-	if err != nil {
-		return nil, err
-	}
-	if root != nil && root.Offset > seed.Offset && checkpoint.MatchBisyncRunID(root.RunId, ids) {
-		seed.RunID = root.RunId
-		seed.Offset = root.Offset
-	}
 	return seed, nil
+}
+
+// carryBisyncPosition : the name the target files its position under may be a bidirectional
+// namespace that is being left (bisyncEnabled switched off). Its live position is in the mode
+// specific records ; the root checkpoint, which is all a rename reads, holds the last full resync
+// only. The live position is stored at the root before the name is given up.
+func (s *syncer) carryBisyncPosition(cli client.Redis, checkpointName string, ids []string) error {
+	mode, ok, err := checkpoint.LoadBisyncNamespaceMode(cli, checkpointName)
+	if err != nil || !ok {
+		return err
+	}
+	seed, err := s.loadBisyncModeSeed(cli, checkpointName, ids, mode, bisyncRecoverySlotsForConfig(s.cfg.Output))
+	if err != nil || seed == nil {
+		return err
+	}
+	root, db, err := checkpoint.GetCheckpoint(cli, checkpointName, ids)
+	if err != nil {
+		return err
+	}
+	if root != nil && root.RunId != "?" && root.Offset >= seed.Offset {
+		return nil
+	}
+	if db < 0 {
+		db = 0
+	}
+	if err := redis.SelectDB(cli, uint32(db)); err != nil {
+		return err
+	}
+	return checkpoint.SetCheckpoint(cli, &checkpoint.CheckpointInfo{
+		Key:     checkpointName,
+		RunId:   seed.RunID,
+		Offset:  seed.Offset,
+		Version: config.Version,
+	})
 }
 
 // seedBisyncNamespace writes the minimum recovery state required for a fresh
@@ -910,6 +954,11 @@ func (s *syncer) updateCheckpoint(wait usync.WaitCloser, localCheckpoint string,
 		}
 		if cpName != "" && cpRunId != "" && cpRunId != ids[0] {
 			keep = []string{cpRunId, ids[0]}
+		}
+		if cpName != "" && cpName != localCheckpoint {
+			if err := s.carryBisyncPosition(cli, cpName, keep); err != nil {
+				return err
+			}
 		}
 		err = checkpoint.UpdateCheckpoint(cli, localCheckpoint, keep)
 		if err != nil {
